@@ -7,7 +7,7 @@ repo, out = sys.argv[1], sys.argv[2]
 exe = os.path.join(V, '.cache', 'bin', 'goextract')
 src = os.path.join(V, 'tools', 'goextract')
 env = dict(os.environ, GOFLAGS='-mod=mod', GOPROXY='off', GOSUMDB='off', GOTOOLCHAIN='local')
-if not os.path.exists(exe) or os.path.getmtime(exe) < os.path.getmtime(os.path.join(src, 'main.go')):
+if not os.path.exists(exe) or os.path.getmtime(exe) < max(os.path.getmtime(os.path.join(src, f)) for f in os.listdir(src)):
     os.makedirs(os.path.dirname(exe), exist_ok=True)
     r = subprocess.run(['go', 'build', '-o', exe, '.'], cwd=src, env=env, stdout=subprocess.PIPE, stderr=subprocess.STDOUT, text=True)
     if r.returncode != 0:
@@ -20,7 +20,7 @@ try:
         print('goextract failed:\n' + r.stdout)
         sys.exit(1)
     os.makedirs(out, exist_ok=True)
-    for f in ('Facts.lean', 'fingerprints.json'):
+    for f in ('Facts.lean', 'Procs.lean', 'fingerprints.json'):
         a, b = os.path.join(tmp, f), os.path.join(out, f)
         if not os.path.exists(b) or not filecmp.cmp(a, b, shallow=False):
             shutil.copy(a, b)
